@@ -302,8 +302,9 @@ def _o2(res):
     return {"re": dec.enc(res[0]), "im": dec.enc(res[1])}
 
 
-def _d2o_event(idv, mol, lam, d, v, molecule=None, table=None, energy=None, vector=0):
-    """mol: labile Formula with density."""
+def _d2o_event(idv, mol, lam, d, v, molecule=None, table=None, energy=None, vector=0, call_with=None):
+    """mol: labile Formula with density.  call_with = (formula without density, {density keyword}): the functions are
+    called with the density as their own keyword instead of a density carried by the formula."""
     import periodictable as P
     from periodictable import nsf
     kw = {"wavelength": lam} if lam is not None else {}
@@ -319,7 +320,9 @@ def _d2o_event(idv, mol, lam, d, v, molecule=None, table=None, energy=None, vect
     H2O, D2O = P.formula("H2O@0.9982n"), P.formula("D2O@0.9982n")
     ev["psH2O"], ev["rhoH2O"] = parts_of(H2O), dec.to_dec(H2O.density)
     ev["psD2O"], ev["rhoD2O"] = parts_of(D2O), dec.to_dec(D2O.density)
-    f = lambda vv, dd: nsf.D2O_sld(mol, volume_fraction=vv, D2O_fraction=dd, **kw)
+    arg, dkw = (mol, {}) if call_with is None else call_with
+    kw = dict(kw, **dkw)
+    f = lambda vv, dd: nsf.D2O_sld(arg, volume_fraction=vv, D2O_fraction=dd, **kw)
     ev["o10"], ev["o11"], ev["o1d"] = _o2(f(1.0, 0.0)), _o2(f(1.0, 1.0)), _o2(f(1.0, d))
     if vector:
         # a contrast series in one call: if the call returns at all, it returns one value per fraction
@@ -338,7 +341,7 @@ def _d2o_event(idv, mol, lam, d, v, molecule=None, table=None, energy=None, vect
                     ev["o1d"] = _o2((r[0][2], r[1][2]))
     ev["o00"], ev["o01"], ev["o0d"] = _o2(f(0.0, 0.0)), _o2(f(0.0, 1.0)), _o2(f(0.0, d))
     ev["ovd"] = _o2(f(v, d))
-    ds, ms = nsf.D2O_match(mol, **kw)
+    ds, ms = nsf.D2O_match(arg, **kw)
     ev["dstar"], ev["msld"] = dec.enc(ds), dec.enc(ms)
     import math
     if math.isfinite(ds) and abs(ds) < 1e6:
@@ -362,8 +365,12 @@ def _d2o(t, T):
         from periodictable import fasta
         # fasta.Molecule takes the NATURAL density; give both the same thing
         mol = fasta.Molecule("m", g, density=g.natural_density)
+    call_with = None
+    if t.get("kwdens"):
+        call_with = (build(t["compound"], T), kw)          # density= / natural_density= as keywords of D2O_sld / D2O_match
     try:
-        return [_d2o_event(t["id"], g, t.get("wavelength"), t["d"], t["v"], molecule=mol, energy=t.get("energy"), vector=t.get("vector", 0))]
+        return [_d2o_event(t["id"], g, t.get("wavelength"), t["d"], t["v"], molecule=mol, energy=t.get("energy"), vector=t.get("vector", 0),
+                           call_with=call_with)]
     except Exception as e:
         return [{"ev": "d2o", "id": t["id"], "exc": "%s: %s" % (type(e).__name__, str(e)[:100])}]
 
